@@ -24,7 +24,7 @@
     a NEW mailbox after the old one was deleted and the rowid reused).
     Result: only the class of the tagged reply (and APPENDUID's numbers).
 
-    State of the code modelled: with the repairs fixes/c03-copy-move-uidnext.patch
+    State of the code modelled: raven at dad7e07, i.e. with the repairs fixes/c03-copy-move-uidnext.patch
     (COPY, UID COPY and the Junk/NonJunk move allocate from mailboxes.uid_next
     and write it back, inside their transaction) and
     fixes/c03-rename-inbox-uidnext.patch (RENAME INBOX: the new row inherits
@@ -106,8 +106,9 @@ Definition op_append (s : store) (folder : str) (flags : list str) : store * res
 
 (** ---- COPY -------------------------------------------------------------------- *)
 
+(** whole-flag test (hasFlag / parseFlagsToSet, raven 378938d) *)
 Definition add_recent (fl : list str) : list str :=
-  if existsb (fun f => contains f RECENT) fl then fl else fl ++ [RECENT].
+  if fmem RECENT fl then fl else fl ++ [RECENT].
 
 (** the loop of handleUIDCopy inside the transaction, followed by
     "UPDATE mailboxes SET uid_next = nextUID" ([] case); [None] = an INSERT
@@ -183,17 +184,20 @@ Definition calc_flags (cur new : list str) (mode : smode) : list str :=
   | SDel => filter (fun f => negb (fmem f new')) (fdedup cur)
   end.
 
-(** message.MoveMessageToMailbox; the boolean is [err == nil] *)
-Definition move_message (s : store) (msg src : Z) (destname : str) (flags : list str) : store * bool :=
+(** message.MoveMessageToMailbox (raven f8aa849, 2746857): the source entry is
+    addressed by (mailbox_id, uid); the boolean is [moved] — false when the
+    destination does not exist, when the message already is in the destination
+    mailbox (then the caller stores the flags in place), or on an SQL error *)
+Definition move_message (s : store) (msg src srcuid : Z) (destname : str) (flags : list str) : store * bool :=
   match find_name s destname with
   | None => (s, false)
   | Some d =>
-    if mb_id d =? src then (s, true) else
+    if mb_id d =? src then (s, false) else
     (* nextUID := uid_next of the destination; INSERT; UPDATE uid_next = nextUID+1; DELETE *)
     match insert_link s msg (mb_id d) (mb_next d) flags with
     | None => (s, false)
     | Some s1 => (delete_links (set_next s1 (mb_id d) (mb_next d + 1))
-                               (fun l => (lk_msg l =? msg) && (lk_mbox l =? src)), true)
+                               (at_uid src srcuid), true)
     end
   end.
 
@@ -211,10 +215,10 @@ Definition uidstore_one (s : store) (sel : Z) (mode : smode) (new : list str) (u
     let junk_added := negb (fmem JUNK cur) && fmem JUNK upd in
     let nonjunk_added := negb (fmem NONJUNK cur) && fmem NONJUNK upd in
     if junk_added then
-      let '(s1, ok) := move_message s (lk_msg l) sel SPAM (fremove NONJUNK upd) in
+      let '(s1, ok) := move_message s (lk_msg l) sel u SPAM (fremove NONJUNK upd) in
       if ok then s1 else set_flags s sel u upd
     else if nonjunk_added then
-      let '(s1, ok) := move_message s (lk_msg l) sel INBOX (fremove JUNK upd) in
+      let '(s1, ok) := move_message s (lk_msg l) sel u INBOX (fremove JUNK upd) in
       if ok then s1 else set_flags s sel u upd
     else set_flags s sel u upd
   end.
@@ -260,8 +264,10 @@ Definition op_create (s : store) (name0 : str) (t : Z) : store * result :=
     end
   end.
 
+(** name >= n||'/' AND name < n||'0' under BINARY comparison = the names that
+    start with n ++ "/" (raven dad7e07; before that: name LIKE n||'/%') *)
 Definition children (s : store) (name : str) : list mbox :=
-  filter (fun m => sql_like (name ++ [SLASH; c_pct]) (mb_name m)) (mboxes s).
+  filter (fun m => has_prefix (mb_name m) (name ++ [SLASH])) (mboxes s).
 
 Definition op_delete (s : store) (name : str) : store * result :=
   match name with
